@@ -47,6 +47,30 @@ def build_cases(ctx):
         doc = '\n'.join(l + '  # xdoctest: +SKIP' for s in stmts for l in s.render())
         cases.append(dict(doc=doc, expect='skipped', trace=[], stmts=n))
     cases.append(dict(doc='>>> # just a comment', expect='skipped', trace=[], stmts=0))
+    # a want whose comparison is switched off (IGNORE_WANT) still ends the "output since the previous want" window
+    for k0 in ('print', 'print2', 'printexpr'):
+        for k2 in ('print', 'expr', 'printexpr'):
+            for wrong_ignored in (False, True):
+                for block in (False, True):
+                    stmts = [gendoc.Stmt(k0, 10), gendoc.Stmt('print', 11), gendoc.Stmt(k2, 12)]
+                    ignored_want = 'anything at all' if wrong_ignored else stmts[1].out.rstrip('\n')
+                    if not block:
+                        stmts[1].inline = '+IGNORE_WANT'
+                    good = gendoc.correct_wants(stmts, 2, 2)
+                    for name, text in sorted(good.items()):
+                        for stale in (False, True):
+                            w2 = (stmts[0].out + text) if stale else text
+                            lines = stmts[0].render()
+                            if block:
+                                lines += ['>>> # xdoctest: +IGNORE_WANT']
+                            lines += stmts[1].render() + ignored_want.split('\n')
+                            if block:
+                                lines += ['>>> # xdoctest: -IGNORE_WANT']
+                            lines += stmts[2].render() + w2.rstrip('\n').split('\n')
+                            if stale:
+                                cases.append(dict(doc='\n'.join(lines), expect='gotwant', fail_stmt=2, trace=[10, 11, 12], corruption='stale-before-ignored-want', fail_line=None))
+                            else:
+                                cases.append(dict(doc='\n'.join(lines), expect='pass', trace=[10, 11, 12], variants=['ignore_want:' + name]))
     return cases
 
 
